@@ -719,6 +719,12 @@ class ListenerRequestHandler(BaseHTTPRequestHandler):
         if cim_error is not None:
             self.send_header("CIMError", cim_error)
         if cim_error_details is not None:
+            # The details may contain text derived from the request or
+            # multi-line parser messages. An HTTP header value must be on
+            # a single line (no CR or LF) and must be ISO-8859-1 encodable.
+            cim_error_details = ' '.join(cim_error_details.split())
+            cim_error_details = cim_error_details.encode(
+                'latin-1', 'backslashreplace').decode('latin-1')
             self.send_header("CIMErrorDetails", cim_error_details)
         if headers is not None:
             for header, value in headers:
